@@ -132,10 +132,9 @@ def match_known(finding, known):
 
 def run_check(prop, tier, budget_s, workers):
     from sim import machines
-    from sim.boot import boot, optyx_src
+    from sim.boot import optyx_src
 
     t0 = time.monotonic()
-    boot()
     if prop not in machines.PROPS:
         harness_error(f"unknown or not-applicable property {prop}")
     P = machines.PROPS[prop]
@@ -267,10 +266,8 @@ def _report_violation(prop, key, seed, case, f, known):
 
 
 def run_replay(path):
-    from sim.boot import boot
     from sim.runner import HarnessFailure, judge_case
 
-    boot()
     with open(path) as fh:
         doc = json.load(fh)
     prop = doc["property"]
@@ -422,9 +419,6 @@ def selftest_determinism(n, props):
 
 
 def emit_digests(n, workers, props):
-    from sim.boot import boot
-
-    boot()
     root_seed = int(os.environ.get("VERIF_SEED", "0"))
     out = {}
     ctx = mp.get_context("fork")
